@@ -488,15 +488,14 @@ func (w *c15World) joinDuringReload(ne, gateAt int, excl bool, during func()) {
 	s1 := &c15Sub{id: len(w.subs), svc: svc, excl: excl, sub: sub, own: map[string]map[string]bool{}}
 	sub.AddListener(s1.listener)
 	groups := map[string][]string{}
-	nk := map[string]bool{}
-	for k, v := range w.etcd.snapshot(svc) {
+	snap1 := w.etcd.snapshot(svc)
+	for k, v := range snap1 {
 		groups[v] = append(groups[v], k)
-		nk[k] = true
 	}
 	for v, ks := range groups {
 		s1.mAdd(ks, v)
 	}
-	w.known[svc] = nk
+	w.setKnown(svc, snap1)
 	w.subs = append(w.subs, s1)
 	w.nAttach++
 	w.nLate++
